@@ -80,7 +80,8 @@ fn emit_attach(out: &mut Out, case: &Sx) {
     }
     let sink_clone = C05Global::sink(); // a clone that outlives the attachment
     let t0 = Instant::now();
-    drop(handle);
+    // odd `after`: the attach handle is dropped by a frame that is unwinding from a panic
+    crate::common::drop_placed(handle, after % 2 == 1);
     let took = t0.elapsed();
     let at_return = log.lock().unwrap().clone();
     for i in 0..after {
